@@ -67,6 +67,21 @@ def _more(o, a, b):
     elif o == "flatten_then_median":
         a.flatten().median(axis=0)
         a.flatten(("y", "x")).median(axis=0, skipna=True)
+    elif o == "set_axis_copy_all_keywords":
+        # every keyword of set_axis with inplace=False: new labels (list / dict / function), a new name, metadata given as attrs= and
+        # as single keywords - alone and together
+        a.set_axis([7, 8, 9], axis="x", inplace=False)
+        a.set_axis({10: 11}, axis="x", inplace=False)
+        a.set_axis(lambda v: v + 1, axis="x", inplace=False)
+        a.set_axis(name="u", axis="x", inplace=False)
+        a.set_axis(attrs={"units": "m"}, axis="x", inplace=False)
+        a.set_axis([7, 8, 9], axis=0, name="u", attrs={"units": "m", "k": [1]}, inplace=False)
+        a.set_axis(axis="y", units="s", inplace=False)
+    elif o == "axis_set_copy":
+        # the same through the Axis objects of the operand (K: Axis.set(inplace=False) returns a new axis)
+        a.axes["x"].set(values=[7, 8, 9], inplace=False)
+        a.axes["x"].set(name="u", inplace=False)
+        a.axes["y"].set(values={1.0: 5.0}, inplace=False)
     elif o == "fillna_int":
         a.fillna(0)
     elif o == "setna_int_value":
